@@ -482,6 +482,29 @@ class Path:
                 kind = "memset" if "memset" in callee else "memcpy"
                 if kind == "memset" and args[1][0] == "c":
                     args[1] = ("c", 8, args[1][2] & 0xff)
+                # memcpy(dst, &local, n) of a whole local scalar of n bytes IS a store of that scalar (the idiom for an unaligned /
+                # type-pun-free store); memcpy(&local, src, n) is the matching load
+                if kind == "memcpy" and args[2][0] == "c" and args[2][2] in (1, 2, 4, 8):
+                    nb = args[2][2]
+                    sroot = ptr_parts(args[1])
+                    droot = ptr_parts(args[0])
+                    if sroot[0][0] == "alloca" and not sroot[2] and droot[0][0] != "alloca":
+                        hit = self.mem.get(self._mkey(args[1]))
+                        if hit is not None and hit[1] == nb:
+                            self.store(args[0], hit[0], nb)
+                            self.events.append(Event("store", i, ptr=args[0], val=hit[0], size=nb))
+                            if not callee.startswith("llvm.") and i.name:
+                                self.env[i.name] = args[0]
+                            return None
+                    if droot[0][0] == "alloca" and not droot[2] and sroot[0][0] != "alloca":
+                        al = self.fn.defs.get(droot[0][1]) if hasattr(self.fn, "defs") else None
+                        if al is not None and al.get("alloc_size") == nb and droot[1] == 0:
+                            val = self.load(args[1], nb, i)
+                            self.events.append(Event("load", i, ptr=args[1], val=val, size=nb))
+                            self.store(args[0], val, nb)
+                            if not callee.startswith("llvm.") and i.name:
+                                self.env[i.name] = args[0]
+                            return None
                 if not callee.startswith("llvm.") and i.name:
                     self.env[i.name] = args[0]          # memcpy / memset return their destination
                 ln = args[2]
